@@ -6,7 +6,7 @@ from ..refs import vtimezone as R5
 
 ID = "C12"
 RULE = ("(1) VTIMEZONE definitions (G7): 1-4 observances, whole-minute offsets -12h..+14h, kinds {yearly nth-weekday rule pair, rule+UNTIL (UTC), rule+COUNT, RDATE "
-        "lists, single onsets}, with/without TZNAME (also the same TZNAME on observances with different offsets), observance order shuffled; built with "
+        "lists, single onsets - also onsets that keep the offset and change only TZNAME or STANDARD/DAYLIGHT}, with/without TZNAME (also the same TZNAME on observances with different offsets), observance order shuffled; built with "
         "Timezone.from_ical(text).to_tz(tzp, lookup_tzid=False) under both providers; instants: every onset -1 s / 0 / +1 s / +20 d (a sample of onsets per "
         "definition in quick) and two instants in 2037; p.astimezone(tz) must give R5's TZOFFSETTO, TZNAME when given, dst()==0 under STANDARD, and the two "
         "providers must agree. (2) histories of 1-5 parsed calendars in one process (zone cache cleared at the start of each history): each calendar "
@@ -65,14 +65,22 @@ def gen_definition(rng):
     elif kind == "singles":
         y = rng.randrange(1970, 2000)
         cur = std
-        for i in range(rng.randrange(2, 5)):
+        # some histories contain onsets that keep the UTC offset and change only the name and/or the kind of time in force
+        # (daylight time made permanent, a zone renamed): every observance then has its own name
+        keep = rng.randrange(3) == 0
+        for i in range(rng.randrange(2, 6 if keep else 5)):
             new = clamp(cur + rng.choice((-7200, -3600, -1800, 1800, 3600, 5400)))
             if new == cur:
                 new = cur - 3600
             y += rng.randrange(1, 6)
             k = "DAYLIGHT" if new > cur else "STANDARD"
-            obs.append((k, (y, rng.randrange(1, 13), rng.randrange(1, 29), rng.randrange(0, 24), rng.choice((0, 30)), 0), cur, new,
-                        (names[1] if k == "DAYLIGHT" else names[0]), (), None))
+            if keep and i and rng.randrange(2):
+                new = cur
+                k = rng.choice(("STANDARD", "STANDARD", "DAYLIGHT"))
+            nm = (names[1] if k == "DAYLIGHT" else names[0])
+            if keep and name_mode != "none":
+                nm = f"N{i}{k[0]}"
+            obs.append((k, (y, rng.randrange(1, 13), rng.randrange(1, 29), rng.randrange(0, 24), rng.choice((0, 30)), 0), cur, new, nm, (), None))
             cur = new
     elif kind == "independent":
         # TZOFFSETFROM of an observance need not equal the TZOFFSETTO of the one before it: the onset is still local - own TZOFFSETFROM
